@@ -38,6 +38,11 @@ func TestC05(t *testing.T) {
 			g := DefaultGen(d)
 			g.W = map[string]int{"CreatePromise": 4, "CompletePromise": 4, "CreateCallback": 4, "CreateSubscription": 4, "ReadPromise": 2, "SearchPromises": 1, "ClaimTask": 1, "CompleteTask": 1}
 			g.TimeoutDeltas = []int64{500, 1000, 1000, 2000, 3000}
+			if d.OneIn(4, "colonids") {
+				// "every choice of ids": ids containing the separator of the derived registration/task ids
+				g.Pids = []string{"a", "a:b", "b:c", "c"}
+				g.Subs = []string{"s", "b:s", "c"}
+			}
 			cfg := GenConfig(d, 8)
 			prof := Profile{Bg: []string{"TimeoutPromises", "EnqueueTasks", "TimeoutTasks"}, Permute: true, Hold: 5, Cut: 2, SendFail: 6}
 			if d.OneIn(3, "faults") {
